@@ -169,7 +169,10 @@ func (a *allocation) createPermission(perm *permission, addr net.Addr) error {
 	if perm.state() == permStateIdle {
 		// Punch a hole! (this would block a bit..)
 		if err := a.CreatePermissions(addr); err != nil {
-			a.permMap.delete(addr)
+			// The caller retries a stale nonce with the same permission: keep it registered
+			if !errors.Is(err, errTryAgain) {
+				a.permMap.delete(addr)
+			}
 
 			return err
 		}
